@@ -10,7 +10,7 @@ from Bio import SeqIO
 from Bio.Data import CodonTable
 from harness import refmodel as rm
 from harness import strategies as S
-from harness.build import mkcollection, chrom_parent, chunk_parent
+from harness.build import mkcollection, chrom_parent, chunk_parent, as_container
 from harness.core import Leg, Prop
 from inscripta.biocantor.io.genbank.constants import GenbankFlavor, GenBankParserType
 from inscripta.biocantor.io.genbank.parser import parse_genbank
@@ -48,10 +48,10 @@ def export(spec, flavor, translations, ctx=None):
     buf = io.StringIO()
     with warnings.catch_warnings():
         warnings.simplefilter("ignore")
-        collection_to_genbank(colls, buf, genbank_type=GenbankFlavor[flavor], update_translations=translations)
+        collection_to_genbank(as_container(colls, spec.get("container", "list")), buf, genbank_type=GenbankFlavor[flavor], update_translations=translations)
         if ctx is not None:
             buf2 = io.StringIO()
-            collection_to_genbank(colls, buf2, genbank_type=GenbankFlavor[flavor], update_translations=translations)
+            collection_to_genbank(as_container(colls, spec.get("container", "list")), buf2, genbank_type=GenbankFlavor[flavor], update_translations=translations)
             ctx.true("second_export_same_file[%s]" % flavor, buf2.getvalue() == buf.getvalue(), {"first": buf.getvalue()[:300], "second": buf2.getvalue()[:300]})
     return coll, buf.getvalue()
 
@@ -248,6 +248,7 @@ def check_genbank(spec, ctx):
 @st.composite
 def strat_genbank(draw, tier="quick"):
     sp = draw(_one_record(""))
+    sp["container"] = draw(st.sampled_from(["list", "list", "tuple", "generator", "iterator"]))
     if draw(st.integers(0, 3)) == 0:
         # the collection sits on a sequence chunk that contains every member
         members_lo = min([t["exons"][0][0] for gn in sp["obj"]["genes"] for t in gn["transcripts"]] + [f["blocks"][0][0] for c in sp["obj"]["feature_collections"] for f in c["features"]])
